@@ -147,8 +147,14 @@ class DataObjectProperty(DopBase):
         """
         internal = self.diag_coded_type.decode_from_pdu(decode_state)
 
-        if self.compu_method.is_valid_internal_value(internal):
-            return self.compu_method.convert_internal_to_physical(internal)
+        try:
+            if self.compu_method.is_valid_internal_value(internal):
+                return self.compu_method.convert_internal_to_physical(internal)
+        except (ArithmeticError, ValueError) as e:
+            # e.g., infinite or NaN floating point objects which are
+            # supposed to be converted to integers
+            raise DecodeError(f"DOP {self.short_name} could not convert the coded value "
+                              f"{repr(internal)}: {e}") from e
 
         internal_to_phys = self.compu_method.compu_internal_to_phys
         default_value = internal_to_phys.compu_default_value if internal_to_phys else None
